@@ -74,7 +74,9 @@ template <class Opt, class TM>
 Eigen::VectorXd gen_x(Tape& t, const Opt& opt, const TM& tm, int N) {
   Eigen::VectorXd x0 = opt.generateInitialGuess();
   Eigen::VectorXd x = x0;
-  for (int i = 0; i < x.size(); ++i) x(i) += (i < N ? t.sym(8) / 32.0 : t.sym(32) / 32.0);
+  int xm = t.pickw({8, 1, 1});   // perturb every slot / exactly the initial guess / only the time slots (waypoints bit-equal to the references)
+  if (xm == 1) return x;
+  for (int i = 0; i < x.size(); ++i) x(i) += (i < N ? t.sym(8) / 32.0 : (xm == 2 ? 0.0 : t.sym(32) / 32.0));
   for (int i = 0; i < N; ++i) { int guard = 0; while (!(tm.toTime(x(i)) >= 0.05) && guard++ < 8) x(i) = 0.5 * (x(i) + x0(i)); if (!(tm.toTime(x(i)) >= 0.05)) x(i) = x0(i); }
   return x;
 }
@@ -88,6 +90,7 @@ void c07_run(Tape& t, Ctx& ctx, Opt& opt, const TM& tm, const Problem& p, unsign
   int K = Ks[t.range(0, 7)];
   double sig = std::exp((std::log(*std::min_element(p.T.begin(), p.T.end())) + std::log(*std::max_element(p.T.begin(), p.T.end()))) / 2);
   Costs costs = gen_costs(t, sig);
+  costs.wc.ref = p.P.template cast<double>();   // reference waypoints of the linear-deviation term
   // the energy of a well-scaled problem scales like sigma^-(2s-1): weight it so that it is commensurate with the other terms
   double rho_eff = rho * std::pow(sig, 2 * S - 1) / 64.0;
   configure(opt, p, flagbits, rho_eff, K);
@@ -202,6 +205,7 @@ void c07x_run(Tape& t, Ctx& ctx, Opt& opt, const TM& tm, const SM* sm, const Pro
   int K = Ks[t.range(0, 7)];
   double sig = std::exp((std::log(*std::min_element(p.T.begin(), p.T.end())) + std::log(*std::max_element(p.T.begin(), p.T.end()))) / 2);
   Costs costs = gen_costs(t, sig);
+  costs.wc.ref = p.P.template cast<double>();   // reference waypoints of the linear-deviation term
   double rho_eff = rho * std::pow(sig, 2 * S - 1) / 64.0;
   configure(opt, p, flagbits, rho_eff, K);
   Eigen::VectorXd x = gen_x(t, opt, tm, N);
@@ -355,6 +359,7 @@ void c08_run(Tape& t, Ctx& ctx, Opt& opt, const TM& tm, const SM* sm, const Prob
   int K = Ks[t.range(0, 9)];
   double sig = std::exp((std::log(*std::min_element(p.T.begin(), p.T.end())) + std::log(*std::max_element(p.T.begin(), p.T.end()))) / 2);
   Costs costs = gen_costs(t, sig);
+  costs.wc.ref = p.P.template cast<double>();   // reference waypoints of the linear-deviation term
   double rho_eff = rho * std::pow(sig, 2 * S - 1) / 64.0;
   configure(opt, p, flagbits, rho_eff, K);
   Eigen::VectorXd x = gen_x(t, opt, tm, N);
@@ -510,6 +515,7 @@ void c19_run(Tape& t, Ctx& ctx, Opt& opt, const TM& tm, const Problem& p, const 
   int K = Ks[t.range(0, 5)];
   double sig = std::exp((std::log(*std::min_element(p.T.begin(), p.T.end())) + std::log(*std::max_element(p.T.begin(), p.T.end()))) / 2);
   Costs costs = gen_costs(t, sig);
+  costs.wc.ref = p.P.template cast<double>();   // reference waypoints of the linear-deviation term
   double rho_eff = rho * std::pow(sig, 2 * S - 1) / 64.0;
   configure(opt, p, flagbits, rho_eff, K);
   Eigen::VectorXd x = gen_x(t, opt, tm, N);
